@@ -49,7 +49,7 @@ Qed.
 
 (** every proved kind, on its definition *)
 Theorem ma_def_affine (c : ma_cfg) (a b v : R) rh : ma_proved c = true -> (1 <= ma_period c)%Z ->
-  (match c with MAcfg KHMA n => (2 <= n)%Z /\ (1 <= hma_len3 n)%Z | MAcfg KSWMA _ => False | _ => True end) ->
+  (match c with MAcfg KHMA n => (2 <= n)%Z /\ (1 <= hma_len3 n)%Z | MAcfg KSWMA _ => False | MAcfg KVidya _ => False | MAcfg KSMM _ => False | _ => True end) ->
   ma_def c (aff a b v) (map (aff a b) rh) = aff a b (ma_def c v rh).
 Proof.
   destruct c as (k, n). intros Hp Hn Hx. cbn [ma_period] in Hn. unfold ma_def. cbv zeta. unfold aff.
@@ -77,7 +77,7 @@ Qed.
 
 (** ... and on the running instances built by the MA constructor *)
 Theorem ma_method_affine (c : ma_cfg) (a b v : R) xs x : ma_proved c = true -> ma_len_ok c -> (1 <= ma_period c)%Z ->
-  (match c with MAcfg KHMA n => (2 <= n)%Z /\ (1 <= hma_len3 n)%Z | MAcfg KSWMA _ => False | _ => True end) ->
+  (match c with MAcfg KHMA n => (2 <= n)%Z /\ (1 <= hma_len3 n)%Z | MAcfg KSWMA _ => False | MAcfg KVidya _ => False | MAcfg KSMM _ => False | _ => True end) ->
   exists s0 s1, ma_init c v = Ok s0 /\ ma_init c (aff a b v) = Ok s1 /\
     snd (ma_next (steps ma_next s1 (map (aff a b) xs)) (aff a b x)) = aff a b (snd (ma_next (steps ma_next s0 xs) x)).
 Proof.
@@ -88,14 +88,14 @@ Proof.
   rewrite Ef, <- map_rev. apply ma_def_affine; assumption.
 Qed.
 
-Definition not_swma (c : ma_cfg) : bool := match c with MAcfg KSWMA _ => false | _ => true end.
+Definition not_swma (c : ma_cfg) : bool := match c with MAcfg KSWMA _ => false | MAcfg KVidya _ => false | MAcfg KSMM _ => false | _ => true end.
 Theorem ma_method_affine' (c : ma_cfg) (a b v : R) xs x : ma_proved c = true -> not_swma c = true -> ma_len_ok c ->
   exists s0 s1, ma_init c v = Ok s0 /\ ma_init c (aff a b v) = Ok s1 /\
     snd (ma_next (steps ma_next s1 (map (aff a b) xs)) (aff a b x)) = aff a b (snd (ma_next (steps ma_next s0 xs) x)).
 Proof.
   intros Hp Hs Hl. apply ma_method_affine; try assumption.
   - destruct c as (k, n). destruct k; cbn [ma_len_ok ma_period] in *; try discriminate; lia.
-  - destruct c as (k, n). destruct k; try exact I; [|discriminate Hs]. cbn [ma_len_ok] in Hl.
+  - destruct c as (k, n). destruct k; try exact I; try discriminate Hs. cbn [ma_len_ok] in Hl.
     split; [lia|]. apply hma_len3_range. exact Hl.
 Qed.
 End Avg2.
